@@ -16,6 +16,7 @@ import LogosModel.DriverLook
 import LogosModel.Emit
 import LogosModel.PassesAll
 import LogosModel.StateType
+import LogosModel.Subst
 import Std.Data.HashMap
 import LogosModel.Source
 import Std.Data.HashSet
@@ -572,6 +573,26 @@ def apiAnswer (ca cb : Case) (src : List Nat) (isPrefix : Bool) (ops : List ApiO
       go r.1 rest (s!"{pre}={lexStStr st}" :: acc)
   " ".intercalate (go [⟨0, 0, 0, 7⟩] ops [])
 
+/-! ## The text pipeline (`Subst.lean`): the predicted calls of `Pattern::compile` -/
+
+def litOf (kind hex : String) : Subst.Lit :=
+  if kind == "b" then .bytes (unhex hex) else .str (unhex hex)
+
+/-- arguments: `sub:<name hex>:<s|b>:<value hex>` and `item:<r|t>:<s|b>:<0|1>:<value hex>`, in source order
+(skips before variants); answer: one `unicode icase hex` triple per predicted call, `;`-separated -/
+def textpipeAnswer (args : List String) : String :=
+  let subs := args.filterMap fun a => match a.splitOn ":" with
+    | ["sub", n, k, v] => some ({ name := unhex n, lit := litOf k v } : Subst.SubDef)
+    | _ => none
+  let items := args.filterMap fun a => match a.splitOn ":" with
+    | ["item", "r", k, ic, v] => some (Subst.Item.regex (litOf k v) (ic == "1"))
+    | ["item", "t", k, ic, v] => some (Subst.Item.token (litOf k v) (ic == "1"))
+    | _ => none
+  let calls := Subst.compileCalls (fun _ => true) subs items
+  let b := Subst.build (fun _ => true) subs
+  s!"errs={b.errs} " ++ ";".intercalate (calls.map fun c =>
+    s!"{if c.unicode then 1 else 0} {if c.icase then 1 else 0} {hexOf c.src}")
+
 partial def run (h : IO.FS.Stream) (out : IO.FS.Stream) (cur : Case) (tbl : Std.HashMap String Case := {}) : IO Unit := do
   let line ← h.getLine
   if line.isEmpty then return ()
@@ -622,6 +643,9 @@ partial def run (h : IO.FS.Stream) (out : IO.FS.Stream) (cur : Case) (tbl : Std.
     run h out cur tbl
   | ["Q", "CLI", check, file, output] =>
     out.putStrLn s!"{cur.name} CLI {check} {file} {output} : {cliAnswer check file output}"
+    run h out cur tbl
+  | "Q" :: "TEXTPIPE" :: args =>
+    out.putStrLn s!"{cur.name} TEXTPIPE {" ".intercalate args} : {textpipeAnswer args}"
     run h out cur tbl
   | "Q" :: "ATTR" :: flag :: toks =>
     out.putStrLn s!"{cur.name} ATTR {flag} {" ".intercalate toks} : {attrAnswer flag toks}"
